@@ -41,6 +41,10 @@ func init() {
 			{Name: "field assigned without the assignability test (original defect)", File: "eval.go", Old: "\t\tif !right.IsValid() || !right.Type().AssignableTo(value.Type()) {", New: "\t\tif !right.IsValid() {", Rule: "C12.set"},
 			{Name: "entry of a nil map assigned (original defect)", File: "eval.go", Old: "\t\tif value.IsNil() {\n\t\t\tleft.errorf(\"can't assign to key %q of a nil map\", fields[lef])\n\t\t}\n", New: "", Rule: "C12.set"},
 			{Name: "map element tested against the key type", File: "eval.go", Old: "\t\tif right.IsValid() && !right.Type().AssignableTo(value.Type().Elem()) {", New: "\t\tif right.IsValid() && !right.Type().AssignableTo(value.Type().Key()) {", Rule: "C12.set"},
+			{Name: "nil Ranger-typed value asserted to Ranger (original defect)", File: "ranger.go", Old: "\t\tif isNilInterface(v) {\n\t\t\treturn nil, nil, fmt.Errorf(\"cannot range over nil pointer/interface (%s)\", t)\n\t\t}\n", New: "", Rule: "C12.iface"},
+			{Name: "nil Renderer-typed value asserted to Renderer (original defect)", File: "eval.go", Old: "if v.Type().Implements(rendererType) && !isNilInterface(v) {", New: "if v.Type().Implements(rendererType) {", Rule: "C12.iface"},
+			{Name: "nil SafeWriter taken as a safe writer (original defect)", File: "eval.go", Old: "\tif term.IsNil() {\n\t\tnode.BaseExpr.errorf(\"safe writer %q is nil\", node.BaseExpr)\n\t}\n", New: "", Rule: "C12.iface"},
+			{Name: "index converted with Int() whatever its kind (agent seed C17/11, reduced)", File: "eval.go", Old: "\tcase reflect.Uint, reflect.Uint8, reflect.Uint16, reflect.Uint32, reflect.Uint64, reflect.Uintptr:\n\t\tx = int64(index.Uint())", New: "\tcase reflect.Uint, reflect.Uint8, reflect.Uint16, reflect.Uint32, reflect.Uint64, reflect.Uintptr:\n\t\tx = index.Int()", Rule: "C12.kind"},
 			{Name: "nil function called (original defect)", File: "eval.go", Old: "\tif baseExpr.Kind() == reflect.Func && baseExpr.IsNil() {\n\t\treturn reflect.Value{}, errors.New(\"base of call expression is a nil function\")\n\t}\n", New: "", Rule: "C12.call"},
 			{Name: "call expression on a value whose kind was not tested", File: "eval.go", Old: "\t\tif baseExpr.Kind() != reflect.Func {\n\t\t\tnode.errorf(\"node %q is not func kind %q\", node.BaseExpr, getTypeString(baseExpr))\n\t\t}\n", New: "", Rule: "C12.call"},
 			{Name: "assignable is taken for identical before asserting to Func (original defect)", File: "eval.go", Old: "baseExpr.Convert(funcType).Interface().(Func)", New: "baseExpr.Interface().(Func)", Rule: "C12.iface"},
